@@ -74,9 +74,9 @@ CLAIMED = {
   'design_ref': 'DESIGN.md 3/C17', 'technique': _T,
   'note': _N + 'Bounds: bit regions with 2 fields of concrete widths; rABS per probability value; adaptive/folded/symbol bit coders not yet covered.'},
  'C18': {
-  'text': 'The operator-new model asserts at every allocation that the size is bounded by a fixed multiple of the (symbolic) stream length; proved for the guards of DirectBitDecoder, RAnsBitDecoder and RAnsSymbolDecoder::Create.',
+  'text': 'The operator-new model asserts at every allocation that the size is bounded by a fixed multiple of the (symbolic) stream length; proved for the guards of DirectBitDecoder, RAnsBitDecoder, RAnsSymbolDecoder::Create, the crease-flag count of the constrained multi-parallelogram decoder and the orientation count of the portable tex-coord decoder (bound: stream length + declared corner count; found and, after the fix, proves the absence of the unbounded orientation count).',
   'design_ref': 'DESIGN.md 3/C18', 'technique': _T + '; allocation-size assertion inside the operator-new model',
-  'note': _N + 'Bounds: 48-byte backing buffer with symbolic length; guards inside Edgebreaker/prediction-scheme decoders outside the claim.'},
+  'note': _N + 'Bounds: 24..48-byte backing buffer with symbolic length, <= 3 declared corners; guards inside the Edgebreaker decoder, attribute lists, metadata and kd-tree decoders outside the claim.'},
  'C19': {
   'text': 'Sufficient condition: every function reachable from every harness entry of the other properties is scanned for references to mutable globals / local statics; reachability of any reference is decided by CBMC. No shared mutable state => no race or cross-talk under any interleaving.',
   'design_ref': 'DESIGN.md 3/C19', 'technique': 'static scan of the regenerated LLVM IR + CBMC reachability of every mutable-global reference',
